@@ -21,21 +21,31 @@ def run(ck, rng):
     docs += malformed_stream(rng, n_bad) + long_line_docs()
     docs += [b"- a\n  - " + b"z" * n + b"\n- b\n" for n in (70000, 200000)] + [b"- r\n" + b" " * 100000]
     docs += [spell(items, deep_spelling(items)) for items in deep_forests()]
-    dcases, wcases = [], []
+    dcases, wcases, docs2, fails = [], [], [], set()
     for doc in docs:
         mode = rng.choice(["d 0", "d 0", "j 0", "d 1"])
         bf = rng.choice(BF_CHOICES)
         exts = rng.choice([[], [b".go"], [b".go", b".md", b"Makefile"], [b"a", b"b"], [b""], [b".go", b" .md"], [b".md ", b"\t.go"], [b" "]]) if mode == "d 1" else []
         tail = "%s %s %s" % (bf_args(bf), hxlist(exts), hx(doc))
+        if rng.random() < 0.08:
+            # a call whose writer fails part-way, in the SAME process: the calls that follow must not be affected
+            fails.add(len(dcases))
+            dcases.append("settle")
+            wcases.append("wasmfail %d %s %s" % (rng.randint(0, 40), rng.choice("01"), hx(doc)))
+            docs2.append(doc)
         dcases.append("out %s %s %s" % (mode, rng.choice("01"), tail))
         wcases.append("wasm %s 0 %s" % (mode, tail))
+        docs2.append(doc)
     impl_d, _ = run_impl(exe_d, dcases)
     impl_w, _ = run_impl(exe_w, wcases)
-    model_w = run_model(wcases)
+    model_w = run_model([c if not c.startswith("wasmfail") else "settle" for c in wcases])
     model_d = run_model(dcases)
-    ck.xcheck_cases = (dcases, model_d)
+    docs = docs2
+    ck.xcheck_cases = ([c for c in dcases if c != "settle"], [m for c, m in zip(dcases, model_d) if c != "settle"])
     broken = None
     for i, doc in enumerate(docs):
+        if i in fails:
+            continue
         rd, rw = impl_d[i].split(" ")[0], impl_w[i].split(" ")[0]
         ck.case(wcases[i][:400], rd != "ok" or doc.count(b"\n") >= 2)
         ck.count("default:" + rd.split(":")[1] if rd.startswith("err:") else "default:" + rd)
